@@ -81,6 +81,7 @@ type Outcome struct {
 	QueryEvents            int
 	Closes                 []int
 	MaxParked              int
+	EarlyRestarts          int
 }
 
 type machine struct {
@@ -107,6 +108,8 @@ type machine struct {
 	entries                  []refmux.Entry
 	foreignPending           int
 	resources                map[string]res.Resource
+	prevCycle                *cycleState
+	serveRefused             bool
 }
 
 var allRIDs = []string{"svc.r.1", "svc.r.2", "svc.s.1", "svc.s.2", "svc.t.a.1", "svc.t.a.2", "svc.t.b.1", "svc.p.1", "svc.m.1", "svc.m.2", "svc.nosuch.1"}
@@ -275,8 +278,20 @@ func (m *machine) build() {
 	m.s = s
 }
 
+type cycleState struct {
+	cycle                                        int
+	shutCalled, shutReturned, serveDone, started bool
+	conn                                         *fakeconn.Conn
+	serveRet                                     chan struct{}
+}
+
 func (m *machine) serve() {
 	m.mu.Lock()
+	// Serve may be attempted as soon as the previous Serve call returned, i.e. possibly while
+	// Shutdown is still finishing. It is then either refused (errNotStopped) or accepted.
+	prev := cycleState{m.cycle, m.shutCalled, m.shutReturned, m.serveDone, m.started, m.conn, m.serveRet}
+	m.prevCycle = &prev
+	m.serveRefused = false
 	m.cycle++
 	m.out.Cycles = m.cycle
 	m.shutCalled, m.shutReturned, m.serveDone = false, false, false
@@ -309,6 +324,17 @@ func (m *machine) serve() {
 			}
 		}()
 		if err := m.s.Serve(conn); err != nil {
+			if strings.Contains(err.Error(), "not stopped") {
+				m.mu.Lock()
+				early := m.prevCycle != nil && !m.prevCycle.shutReturned && m.prevCycle.serveRet != nil
+				if early {
+					m.serveRefused = true // the documented refusal while Shutdown is still finishing
+				} else {
+					m.out.Viol["C03"] = append(m.out.Viol["C03"], "Serve on a stopped service (Shutdown had returned) was refused: "+err.Error())
+				}
+				m.mu.Unlock()
+				return
+			}
 			m.viol("C03", "Serve returned error: %v", err)
 		}
 		m.mu.Lock()
@@ -493,10 +519,22 @@ func (m *machine) exec(op Op) {
 		m.shutdown()
 	case "serve":
 		m.mu.Lock()
-		can := !m.started && (m.serveRet == nil || (m.serveDone && m.shutReturned))
+		can := !m.started && (m.serveRet == nil || m.serveDone)
 		m.mu.Unlock()
 		if can {
 			m.ctl.Do("serve", m.serve)
+			m.mu.Lock()
+			if m.serveRefused {
+				// refused: nothing changed, the previous cycle is still the current one
+				p := m.prevCycle
+				m.cycle, m.shutCalled, m.shutReturned, m.serveDone, m.started, m.conn, m.serveRet = p.cycle, p.shutCalled, p.shutReturned, p.serveDone, p.started, p.conn, p.serveRet
+				m.out.Cycles = m.cycle
+				m.serveRefused = false
+				m.ctl.Trace = append(m.ctl.Trace, "(serve refused: not stopped yet)")
+			} else if m.prevCycle != nil && m.prevCycle.serveRet != nil && !m.prevCycle.shutReturned {
+				m.out.EarlyRestarts++
+			}
+			m.mu.Unlock()
 		}
 	case "foreign":
 		m.mu.Lock()
